@@ -32,6 +32,10 @@ OVERRIDES = [
     [{'k': 'cls', 'n': 'A'}, {'k': 'union', 'a': [{'k': 'cls', 'n': 'A'}, {'k': 'cls', 'n': 'C'}]}],
     [{'k': 'cls', 'n': 'int'}, {'k': 'union', 'a': [{'k': 'cls', 'n': 'int'}, {'k': 'cls', 'n': 'float'}]}],
     [{'k': 'cls', 'n': 'bytes'}, {'k': 'cls', 'n': 'object'}],
+    # class to unrelated class; class to a hint that mentions the class below the top level (replaced once, not again inside)
+    [{'k': 'cls', 'n': 'C'}, {'k': 'cls', 'n': 'B'}],
+    [{'k': 'cls', 'n': 'int'}, {'k': 'seq', 'o': 'list', 'a': [{'k': 'cls', 'n': 'int'}]}],
+    [{'k': 'cls', 'n': 'str'}, {'k': 'opt', 'a': [{'k': 'vtuple', 'a': [{'k': 'cls', 'n': 'str'}], 't': False}]}],
 ]
 
 
@@ -58,6 +62,17 @@ def rewrite(h, mapping, depth=0, hits=None):
 # mention them are generated for the tower kind only (no fixture TypeVar / NewType mentions float or complex).
 FAMILIES_NO_TV = ['union', 'opt', 'pipe', 'lit', 'tuple', 'vtuple', 'seq', 'set', 'map', 'counter', 'iter', 'type', 'ann',
                   'proto', 'gen', 'shallow', 'leaf']
+
+
+def _under_type(h, name, inside=False):
+    """Does the class ``name`` occur below a type[...] node?"""
+    if h['k'] == 'cls':
+        return inside and h['n'] == name
+    return any(_under_type(a, name, inside or h['k'] == 'type') for a in h.get('a', []) or [] if isinstance(a, dict))
+
+
+def _mentions_kind(h, kind):
+    return h['k'] == kind or any(_mentions_kind(a, kind) for a in h.get('a', []) or [] if isinstance(a, dict))
 
 
 def _has_tv(h):
@@ -99,7 +114,17 @@ def generate(rng, run, tier):
         ov = None
     elif kind == 'override':
         ov = rng.choice(OVERRIDES)
-        h = _bias_hint(rng, [ov[0]['n']], no_tv=True)
+        for _ in range(30):
+            h = _bias_hint(rng, [ov[0]['n']], no_tv=True)
+            # type[K] with K overridden by something that is not a class (type[list[int]]) has no checkable meaning
+            if ov[1]['k'] not in ('cls', 'union') and _under_type(h, ov[0]['n']):
+                continue
+            # avoid switch: known finding C18-counter-implicit-int-overridden (most cases steer around it)
+            if ov[0]['n'] == 'int' and ov[1]['k'] == 'seq' and _mentions_kind(h, 'counter') and rng.random() < 0.9:
+                continue
+            break
+        else:
+            h = {'k': 'seq', 'o': 'list', 'a': [ov[0]]}
         mapping = {ov[0]['n']: ov[1]}
     else:
         h = H.gen_hint(rng, rng.choice([1, 2, 3]))
@@ -176,6 +201,8 @@ def execute(case):
             c1, c2 = entry.classify(o1, p1.conf), entry.classify(o2, p2.conf)
             if ep == 'is_bearable':
                 seen.add(c2)
+            if c1 == 'error' and c2 == 'error' and type(o1['exc_obj']) is type(o2['exc_obj']):
+                continue        # both sides refuse the (rewritten) hint with the same exception: equivalent
             if 'error' in (c1, c2):
                 bad = o1 if c1 == 'error' else o2
                 e = bad['exc_obj']
@@ -218,7 +245,15 @@ def shrink(case, violation):
         yield dict(case, x=o)
 
 
-SIGNATURES = {}
+def _sig_counter_int(case, v):
+    """Known finding C18-counter-implicit-int-overridden."""
+    ov = case.get('override')
+    return (v.get('kind') == 'rewrite_mismatch' and case.get('kind') == 'override' and bool(ov) and ov[0].get('n') == 'int'
+            and ov[1].get('k') == 'seq' and _mentions_kind(case['h'], 'counter')
+            and 'option side reject, hand-rewritten side accept' in v.get('detail', ''))
+
+
+SIGNATURES = {'counter_implicit_int_overridden': _sig_counter_int}
 
 
 def describe(case):
